@@ -142,7 +142,7 @@ def copy_case(ctx, rng, model, kind, cnum):
     n = (int(rng.integers(5, 9)), int(rng.integers(5, 9)), int(rng.integers(5, 12)))
     arr = gen.cube(rng, n)
     src = ctx.path('copysrc.sgz')
-    hd = {181: rng.integers(-99, 99, size=n[:2]), 185: rng.integers(-99, 99, size=n[:2])}
+    hd = {181: rng.integers(-99, 99, size=n[:2]), 185: rng.integers(-2 ** 31, 2 ** 31 - 1, size=n[:2])}
     if kind == 'reblock':
         conv.numpy_to_sgz(arr, src, 8, (4, 4, 1024), trace_headers=hd)
     else:
@@ -187,7 +187,7 @@ def copy_case(ctx, rng, model, kind, cnum):
                 break
 
 
-def probe(path, ops, fields, tcount):
+def probe(path, ops, fields, tcount, extra_hdr=()):
     """outcomes of every read path on the file at `path`"""
     out = {}
     try:
@@ -199,10 +199,12 @@ def probe(path, ops, fields, tcount):
         for op in ops:
             g = readops.outcome(r, op)
             out[op] = ('raised',) if g[0] != 'ok' else ('ok', np.asarray(g[1]).shape, np.asarray(g[1]).astype(np.float64).tobytes())
-        for t in sorted(set([0, tcount - 1, tcount // 2])):
+        for t in sorted(set([0, tcount - 1, tcount // 2] + [int(v) for v in extra_hdr if 0 <= int(v) < tcount])):
             try:
                 h = r.gen_trace_header(t)
-                out[('hdr', t)] = ('ok', tuple(sorted((int(a), int(b)) for a, b in h.items())))
+                # (a value that is not an integer - None, say - is kept as it is: it is a returned value, not a refusal)
+                out[('hdr', t)] = ('ok', tuple(sorted((int(a), int(b) if isinstance(b, (int, np.integer)) else repr(b))
+                                                      for a, b in h.items())))
             except Exception:
                 out[('hdr', t)] = ('raised',)
         for f in fields:
@@ -251,7 +253,7 @@ def run_(ctx, model):
             bs = None
         with WriteLog(out) as wl:
             if route == 'numpy':
-                hd = {181: rng.integers(-99, 99, size=n[:2]), 185: rng.integers(-99, 99, size=n[:2])}
+                hd = {181: rng.integers(-99, 99, size=n[:2]), 185: rng.integers(-2 ** 31, 2 ** 31 - 1, size=n[:2])}
                 conv.numpy_to_sgz(arr, out, q, bs or (4, 4, -1), trace_headers=hd)
             else:
                 sgy = ctx.path('src.sgy')
@@ -303,10 +305,25 @@ def run_(ctx, model):
         # byte truncations of the finished file
         tr = sorted(set([len(full) - 1, len(full) - 4, len(full) - 512, 8192, 8191, 4096] + rng.integers(1, len(full), size=(ctx.n(6, 60))).tolist()))
         states += [(f'truncate {L}/{len(full)}', full[:L]) for L in tr if 0 < L < len(full)]
-        for label, content in states:
+        # cuts inside the footer that split one 4-byte header value (every residue of the cut length modulo 4), with the
+        # header of the trace whose value is split, and of its neighbours, among the reads probed
+        hd0 = spec.read_header(out)[0]
+        straddle = {}
+        if hd0.n_arrays:
+            f0 = hd0.footer_offset(0)
+            for _ in range(ctx.n(6, 40)):
+                j = hd0.n_arrays - 1 if rng.random() < .7 else int(rng.integers(hd0.n_arrays))   # (mostly the last array: with an
+                # earlier one cut, every look-up already fails on the arrays behind it)
+                p_ = int(rng.integers(0, max(1, hd0.array_bytes // 4)))
+                L = f0 + j * hd0.stride + 4 * p_ + int(rng.integers(1, 4))
+                if 0 < L < len(full):
+                    states.append((f'truncate {L}/{len(full)} (inside value {p_} of footer array {j})', full[:L]))
+                    straddle[len(states) - 1] = [p_ - 1, p_, p_ + 1]
+        truth_all = probe(out, ops, fields, tcount, extra_hdr=range(tcount) if tcount <= 400 else ())
+        for si, (label, content) in enumerate(states):
             with open(part, 'wb') as f:
                 f.write(content)
-            got = probe(part, ops, fields, tcount)
+            got = probe(part, ops, fields, tcount, extra_hdr=straddle.get(si, ()))
             ctx.case((cnum, route, mode, label), sample={'case': desc, 'state': label, 'open': got['open'][0]} if len(ctx.samples) < 6 else None)
             ctx.stats['states'] += 1
             ctx.stats['state_' + label.split()[0]] += 1
@@ -326,7 +343,7 @@ def run_(ctx, model):
                     ctx.corr_fail('Model.IO/truncRaises', f'io trunc {spec.DISK * 2} {len(content)} {req}', verdict, real,
                                   {'case': desc, 'state': label, 'call': op})
             for k, v in got.items():
-                if v[0] == 'ok' and v != truth.get(k):
+                if v[0] == 'ok' and v != truth_all.get(k, truth.get(k)):
                     ctx.fail(f'partial file ({label}): {k} returned a value that differs from the complete file\'s',
                              {'case': desc, 'state': label, 'call': k})
                     break
